@@ -190,6 +190,7 @@ class World:
         self.used_contracts = set()
         self.used_types = set()
         self.dropped_unresolved = []
+        self.stubs = []
 
     # ------------------------------------------------------------------ modules
     def modules(self):
@@ -579,6 +580,15 @@ class World:
             return
         self.used_contracts.add(key)
         stub = 'stub' in c.opts
+        if stub:
+            body_sha = sha(re.sub(rb'\s+', b' ', src[it['span'][0]:it['span'][1]]))[:16]
+            pin = next((o.split('=')[1] for o in c.opts if o.startswith('pin=')), None)
+            self.stubs.append({'mod': modpath, 'name': cname, 'file': m['file'], 'sha': body_sha, 'pin': pin, 'contract': os.path.relpath(c.origin, VERIF)})
+            if pin is None:
+                raise Inconclusive(f'{c.origin}: stub {cname} has no pin=<sha> option (current body: pin={body_sha})')
+            if pin != body_sha:
+                raise Inconclusive(f'lost anchor: the body of {modpath}::{cname} changed (pin {pin}, now {body_sha}); its contract is ASSUMED, '
+                                   f'not verified, and was written for the pinned body')
         variants = [('main', None)]
         if reach and not stub and 'noreach' not in c.opts:
             variants = [('stub', None), ('reach', None)]
@@ -855,7 +865,7 @@ class World:
 
 def assemble(world_name, features=(), outdir=None):
     w = World(world_name, features)
-    outdir = outdir or os.path.join(VERIF, 'work', world_name + ('-' + '-'.join(sorted(features)) if features else ''))
+    outdir = outdir or os.path.join(os.environ.get('VERIF_WORK', os.path.join(VERIF, 'work')), world_name + ('-' + '-'.join(sorted(features)) if features else ''))
     os.makedirs(outdir, exist_ok=True)
     main = w.build(reach=False)
     fmap_main = w.fnmap
@@ -865,7 +875,7 @@ def assemble(world_name, features=(), outdir=None):
     open(os.path.join(outdir, 'unit.rs'), 'wb').write(main)
     open(os.path.join(outdir, 'unit_reach.rs'), 'wb').write(reach)
     meta = {'world': world_name, 'features': sorted(features), 'fns': fmap_main, 'reach_fns': w2.fnmap,
-            'counters': counters, 'uncontracted': w.uncontracted,
+            'counters': counters, 'uncontracted': w.uncontracted, 'stubs': w.stubs,
             'unit_sha256': sha(main)}
     json.dump(meta, open(os.path.join(outdir, 'map.json'), 'w'), indent=1)
     return outdir, meta
